@@ -26,7 +26,9 @@ inline fcppt::intrusive::base<Type>::base(list_type &_list)
 
 template <typename Type>
 inline fcppt::intrusive::base<Type>::base(base &&_other) noexcept
-    : prev_{_other.prev_}, next_{_other.next_}
+    : // If _other is not linked, then the new object must not be linked, either.
+      prev_{_other.prev_ == &_other ? this : _other.prev_},
+      next_{_other.next_ == &_other ? this : _other.next_}
 {
   prev_->next_ = this;
 
@@ -51,9 +53,12 @@ inline fcppt::intrusive::base<Type> &fcppt::intrusive::base<Type>::operator=(bas
 
   prev_->next_ = next_;
 
-  prev_ = _other.prev_;
+  // If _other is not linked, then this must not be linked, either.
+  bool const other_linked{_other.next_ != &_other};
 
-  next_ = _other.next_;
+  prev_ = other_linked ? _other.prev_ : this;
+
+  next_ = other_linked ? _other.next_ : this;
 
   prev_->next_ = this;
 
